@@ -516,6 +516,51 @@ func (bc *BlockChain) insert(block *types.Block) {
 	}
 	// If the block is better than our head or is on a different chain, force update heads
 	if updateHeads {
+		// The block replaces whatever the number index held at its height, so that
+		// entry and the assignments above it belong to the chain that is being left (a
+		// longer chain that is dropped, or headers that ran ahead on another branch).
+		// Delete the assignments above, as HeaderChain.WriteHeader does for a new head
+		// header, and the transaction lookups that point into the blocks left behind
+		dropLookups := func(hash common.Hash, number uint64) {
+			if body := GetBodyNoVersion(bc.db, hash, number); body != nil {
+				for _, tx := range body.Transactions {
+					if blockHash, _, _ := GetTxLookupEntry(bc.db, tx.Hash()); blockHash == hash {
+						DeleteTxLookupEntry(batch, tx.Hash())
+					}
+				}
+			}
+		}
+		if old := GetCanonicalHash(bc.db, block.NumberU64()); old != (common.Hash{}) {
+			dropLookups(old, block.NumberU64())
+		}
+		for i := block.NumberU64() + 1; ; i++ {
+			old := GetCanonicalHash(bc.db, i)
+			if old == (common.Hash{}) {
+				break
+			}
+			dropLookups(old, i)
+			DeleteCanonicalHash(batch, i)
+		}
+		// Overwrite any stale assignments below (the parent is canonical unless header
+		// imports re-routed the index away from the block chain)
+		for hash, number := block.ParentHash(), block.NumberU64()-1; block.NumberU64() > 0; number-- {
+			old := GetCanonicalHash(bc.db, number)
+			if old == hash {
+				break
+			}
+			header := bc.GetHeader(hash, number)
+			if header == nil {
+				break
+			}
+			if old != (common.Hash{}) {
+				dropLookups(old, number)
+			}
+			WriteCanonicalHash(batch, hash, number)
+			if number == 0 {
+				break
+			}
+			hash = header.ParentHash
+		}
 		if err := WriteHeadHeaderHash(batch, block.Hash()); err != nil {
 			log.Crit("Failed to insert head header hash", "err", err)
 		}
@@ -1451,16 +1496,8 @@ func (bc *BlockChain) reorg(oldBlock, newBlock *types.Block) error {
 		}
 		addedTxs = append(addedTxs, newChain[i].Transactions()...)
 	}
-	// Delete any canonical number assignments above the new head
-	// (the dropped chain may have been longer than the new one)
-	if err == nil && len(newChain) > 0 {
-		for i := newChain[0].NumberU64() + 1; ; i++ {
-			if GetCanonicalHash(bc.db, i) == (common.Hash{}) {
-				break
-			}
-			DeleteCanonicalHash(bc.db, i)
-		}
-	}
+	// (canonical number assignments above the new head are deleted by insert
+	// whenever a block replaces what the index held at its height)
 
 	// regardless of WriteTxLookupEntries error
 	diff := types.TxDifference(deletedTxs, addedTxs)
